@@ -5,6 +5,17 @@ PROP = "C05"
 THEOREMS = [tuple(x) for x in json.load(open(os.path.join(VERIF, "lib", "pins", PROP + ".json")))]
 
 
+def killed_commands(run, har):
+    """black-box: a command that dies from a signal is a failed command (not recorded, nothing downstream starts, exit status
+    non-zero, re-run next time) - the classification in process_posix.rs is bypassed by the scripted executor"""
+    import taskleg
+    n2, out_ = build_n2_binary()
+    if n2 is None:
+        run.tie("n2 build", out_[-1000:])
+    else:
+        run.coverage["black_box_killed_commands"] = taskleg.killed_command_leg(run, n2, random.Random(1))
+
+
 def main(tier, seed, replay=None):
     return sched_check(PROP, THEOREMS, tier, seed, [monitor_c05, monitor_c01], extra_modules=["Model.All", "Proofs.SchedSpec", "Proofs.SchedInv", "Proofs.SchedLive", "Proofs.SchedRunThms"],
-                       replay=replay, scen_gen=gen_sched_or_regen)
+                       replay=replay, scen_gen=gen_sched_or_regen, probes=killed_commands)
